@@ -49,9 +49,13 @@ var menu = []tmpl{
 	{"link-snap", "link-snap", ""},
 }
 
+// the multisets range over the first coreMenu entries; TestC07 appends one entry per further task kind that the
+// real managers register (pair family: membership of every kind in its serialization class)
+const coreMenu = 12
+
 var ifaceKinds = map[string]bool{"connect": true, "disconnect": true, "setup-profiles": true, "remove-profiles": true, "discard-conns": true,
 	"auto-connect": true, "auto-disconnect": true, "hotplug-add-slot": true, "hotplug-connect": true, "hotplug-update-slot": true,
-	"hotplug-remove-slot": true, "hotplug-remove-slots": true, "hotplug-disconnect": true, "hotplug-update-slots": true, "regenerate-security-profiles": true}
+	"hotplug-remove-slot": true, "hotplug-disconnect": true, "transition-ubuntu-core": true}
 
 type config struct {
 	Tasks []int `json:"tasks"` // indices into menu
@@ -460,7 +464,7 @@ func multisets(k, from int) [][]int {
 		return [][]int{nil}
 	}
 	var res [][]int
-	for i := from; i < len(menu); i++ {
+	for i := from; i < coreMenu; i++ {
 		for _, rest := range multisets(k-1, i) {
 			res = append(res, append([]int{i}, rest...))
 		}
@@ -505,6 +509,42 @@ func TestC07(t *testing.T) {
 	defer os.RemoveAll(tmp)
 	dirs.SetRootDir(tmp)
 	defer dirs.SetRootDir("/")
+
+	probe := newWorld(config{})
+	known := probe.r.KnownTaskKinds()
+	probe.dispose()
+	sort.Strings(known)
+	inMenu := map[string]int{}
+	for i, m := range menu {
+		if _, ok := inMenu[m.Kind]; !ok {
+			inMenu[m.Kind] = i
+		}
+	}
+	for k := range ifaceKinds {
+		found := false
+		for _, kk := range known {
+			found = found || kk == k
+		}
+		if !found {
+			eng.HarnessError("interface task kind %q of the oracle is not registered by the real managers (oracle out of date)", k)
+		}
+	}
+	// kinds with a real clean-up handler are left out of the pair family: the clean-up runs (asynchronously) once the
+	// change is ready and expects the data of its real tasks
+	withCleanup := map[string]bool{"copy-snap-data": true, "prepare-remodeling": true, "set-model": true, "create-recovery-system": true, "finalize-recovery-system": true}
+	kept := known[:0]
+	for _, k := range known {
+		if !withCleanup[k] {
+			kept = append(kept, k)
+		}
+	}
+	known = kept
+	for _, k := range known {
+		if _, ok := inMenu[k]; !ok {
+			menu = append(menu, tmpl{Name: "k:" + k, Kind: k})
+			inMenu[k] = len(menu) - 1
+		}
+	}
 
 	runCase := func(c caseT, rep func(path []event, msg string)) {
 		w := newWorld(c.Config)
@@ -568,7 +608,30 @@ func TestC07(t *testing.T) {
 			}
 		}
 	}
-	r.Info("bounds", map[string]interface{}{"max_tasks": maxSize, "menu": len(menu), "configurations": len(cfgs)})
+	// pair family over every registered kind: the serialization predicates key on the task kind, so a kind that drops
+	// out of its class (or a class that forgets a kind) shows in a two-task configuration: every interface kind with
+	// connect, setup-profiles and itself; every kind at all with update-gadget-assets (exclusive with everything)
+	pairs := 0
+	for _, k := range known {
+		e := inMenu[k]
+		var with []int
+		if ifaceKinds[k] {
+			with = append(with, inMenu["connect"], inMenu["setup-profiles"], e)
+		}
+		with = append(with, inMenu["update-gadget-assets"])
+		for _, o := range with {
+			if e < coreMenu && o < coreMenu {
+				continue // already among the multisets
+			}
+			ts := []int{o, e}
+			if o > e {
+				ts = []int{e, o}
+			}
+			cfgs = append(cfgs, config{Tasks: ts})
+			pairs++
+		}
+	}
+	r.Info("bounds", map[string]interface{}{"max_tasks": maxSize, "menu": coreMenu, "registered_kinds": len(known), "pair_family_configurations": pairs, "configurations": len(cfgs)})
 	if r.Sharded(16) {
 		r.Finish("sharded")
 	}
